@@ -711,7 +711,7 @@ fn c09_ro_mutators_unsync() {
 // =============================================================================================
 pub(crate) fn c17_clear_plain<A: Allocator>(fl: Freelist, reserved: u32) {
   const CAP: u32 = 80;
-  let mk_ = || Options::new().with_capacity(CAP).with_unify(false).with_freelist(fl).with_reserved(reserved).with_minimum_segment_size(8).alloc::<A>().unwrap();
+  let mk_ = || Options::new().with_capacity(CAP).with_unify(false).with_freelist(fl).with_reserved(reserved).with_minimum_segment_size(8).with_maximum_retries(1).alloc::<A>().unwrap();
   let arena: A = mk_();
   let fresh: A = mk_();
   let dofs = arena.data_offset();
